@@ -84,11 +84,14 @@ def vivaldiExpected (s : St) (z a b : Nat) : Option (Option VRoute) :=
 /-- units of a latency: 2^-50 s -/
 def latUnit : Nat := 2 ^ 50
 
+/-- resolution of the square-root bracket: 2^-64 (times the denominator of the radicand) ms -/
+def sqrtScale : Nat := 2 ^ 64
+
 /-- the observed answer of a Vivaldi zone against the model: same links and gateways, and the observed coordinate term
-within the rational bracket of the model's term (resolution 2^-64 ms), widened by the case's tolerance (rounding of the
+within the rational bracket of the model's term (resolution ≤ 2^-64 ms), widened by the case's tolerance (rounding of the
 library's double arithmetic).  Perfect squares with a dyadic value: bracket = one point, tolerance 0: exact. -/
 def vivaldiAgrees (tol : Int) (m : VRoute) (r : Route) : Bool :=
-  let (lo, hi) := termBracket latUnit 64 m.term
+  let (lo, hi) := termBracket latUnit sqrtScale m.term
   m.links == r.links && m.gwSrc == r.gwSrc && m.gwDst == r.gwDst && lo - tol ≤ r.extra && r.extra ≤ hi + tol
 
 def showLinks (l : List Nat) : String := " ".intercalate (l.map toString)
@@ -227,7 +230,7 @@ def judge (s : St) (q a : List String) : St × Verdict :=
             match vivaldiExpected s z x y with
             | some (some m) =>
               (s', if vivaldiAgrees s.tol m r then .ok
-                   else .disagree s!"{repr m} term bracket {(termBracket latUnit 64 m.term)} observed {r.extra}")
+                   else .disagree s!"{repr m} term bracket {(termBracket latUnit sqrtScale m.term)} observed {r.extra}")
             | some none => (s', .disagree "exception")
             | none => (s', .ok)
           | _ => (s', .ok)
